@@ -155,7 +155,9 @@ Applicable(d, a) ==
            \/ r.scope = "array" /\ d.card = "array"
            \/ r.scope = "map" /\ d.card = "map"
            \/ r.scope = "prop"
-        /\ (a \in AnnAttrs => WithAnn)
+        \* (the entity-key marker is an annotation with a validation consequence - a primary key is required - so it is part
+        \* of C12's space too)
+        /\ (a \in AnnAttrs => WithAnn \/ a = "ent")
 
 RangeOf(s) == {s[i] : i \in 1..Len(s)}
 
